@@ -120,7 +120,7 @@ def run(rep, tier, seed):
                 nres += 1
                 if si > 0:
                     # thorough tier: the same enumeration with other witness values; only new failures are recorded
-                    if r["ok"] or r["name"] in covers or r["clause"] not in ("I4", "I9", "I11"):
+                    if r["ok"] or r["name"] in covers or r["clause"] not in ("I4", "I9", "I11", "I13"):
                         continue
                     nbad += 1
                     r = dict(r, name=f"{r['name']}@seed{sd}")
